@@ -10,7 +10,8 @@ returns a program or errors) is C11's model; the runtime part (no panic in libra
 observed by the harness in child processes.
 -/
 import ThriftVerif.Compile.RepairedProofs
-import ThriftVerif.Compile.ConstTotalLift
+import ThriftVerif.Compile.ConstTotalPlain
+import ThriftVerif.Compile.ConstTotalDCLift
 
 namespace ThriftVerif.Properties.C08
 open ThriftVerif.Compile
@@ -53,6 +54,24 @@ theorem compile_total_plain_values {pre : Bool} {o : Orders} {src : Program} {p 
     (hg : gather src = some p) (hp : PlainValues p) :
     ∃ fuel, ∀ g, fuel ≤ g → compileWith pre g o src ≠ .fuel :=
   compileWith_total_plainValues hg hp
+
+/-- **Totality with constants (partial): programs whose DEFAULT values are closed.** The constants
+of the program are unrestricted — map and struct literals, references to other constants in
+chains and cycles of any length and across modules, casts to other types. What is required is that
+no default value (of a struct field or a function parameter) contains a struct / map literal or a
+reference to a constant — scalars, enum items and list literals of those are allowed — and that
+the field names of a struct are pairwise different (which `compileFields` guarantees: `gather`
+rejects duplicates). For every visit order the compiler then answers with some fuel, and with
+every larger fuel. The completion of a struct literal from the defaults of its struct — the step
+that is not a descent into the literal — only ever links values that touch no constant, which
+leaves the state alone (`DC.nrStep`, `DC.sfields_of`). *Partial*: defaults that are struct
+literals (`= {}`: D40's class, the half-linked territory of D10 / D21 / D50) or constants
+(`= SOME_CONST`, covered by `compile_total_plain_values` when no map literal occurs) are outside
+this statement; a program with both kinds at once is covered by neither theorem. -/
+theorem compile_total_closed_defaults {pre : Bool} {o : Orders} {src : Program} {p : GProg}
+    (hg : gather src = some p) (hp : DC.DefaultsClosed p) :
+    ∃ fuel, ∀ g, fuel ≤ g → compileWith pre g o src ≠ .fuel :=
+  DC.compileWith_total_defaultsClosed hg hp
 
 /-- **Regression witnesses (D4, D6, D40, D5, D74 — repaired): the former non-terminating inputs end
 in an error.** On `const i32 a = b  const i32 b = a`, `const list<i32> c = c` (and the same
@@ -106,5 +125,33 @@ example : (gather progD74).map (fun p => decide (PlainValues p)) = some true := 
 example : (gather constChain).map (fun p => decide (PlainValues p)) = some true := by decide +kernel
 example : (compile 40 [] constChain).isOk = true := by decide +kernel
 example : (gather progD40).map (fun p => decide (PlainValues p)) = some false := by decide +kernel
+
+/-! Non-vacuity of `compile_total_closed_defaults`: a program with struct and map constants, a
+constant cast to another struct type, an enum default and a list default — accepted; a constant
+cycle through struct literals — in the class, rejected; D74 (defaults that refer to constants)
+and D40 (a struct-literal default) — outside the class. -/
+def structConsts : Program := oneFileProg true [
+  .enum (nm "Color") [(nm "RED", some 1), (nm "BLUE", some 2)],
+  .struct .struct (nm "P") [⟨some 1, nm "x", .optional, .base 0 .i32, some (.int 7)⟩,
+                            ⟨some 2, nm "c", .optional, .ref (nm "Color"), some (.uref (nm "Color.RED"))⟩,
+                            ⟨some 3, nm "l", .optional, .list 0 (.base 1 .i64), some (.list [.int 1, .int 2])⟩],
+  .struct .struct (nm "Q") [⟨some 1, nm "x", .optional, .base 2 .i32, none⟩, ⟨some 2, nm "p", .optional, .ref (nm "P"), none⟩],
+  .const (nm "p0") (.ref (nm "P")) (.map [(.str (nm "x"), .int 3)]),
+  .const (nm "q0") (.ref (nm "Q")) (.map [(.str (nm "x"), .int 4), (.str (nm "p"), .uref (nm "p0"))]),
+  .const (nm "q1") (.ref (nm "Q")) (.uref (nm "p0")),
+  .const (nm "m0") (.map 0 (.base 3 .string) (.ref (nm "P"))) (.map [(.str (nm "k"), .uref (nm "p0")), (.str (nm "e"), .map [])])]
+
+def structCycle : Program := oneFileProg true [
+  .struct .struct (nm "N") [⟨some 1, nm "v", .required, .base 0 .i32, none⟩, ⟨some 2, nm "t", .optional, .ref (nm "N"), none⟩],
+  .const (nm "a") (.ref (nm "N")) (.map [(.str (nm "v"), .int 1), (.str (nm "t"), .uref (nm "b"))]),
+  .const (nm "b") (.ref (nm "N")) (.map [(.str (nm "v"), .int 2), (.str (nm "t"), .uref (nm "a"))])]
+
+example : (gather structConsts).map (fun p => decide (DC.DefaultsClosed p)) = some true := by decide +kernel
+example : (compile 60 [] structConsts).isOk = true := by decide +kernel
+example : (gather structCycle).map (fun p => decide (DC.DefaultsClosed p)) = some true := by decide +kernel
+example : (match compile 60 [] structCycle with | .err => true | _ => false) = true := by decide +kernel
+example : (gather progD74).map (fun p => decide (DC.DefaultsClosed p)) = some false := by decide +kernel
+example : (gather progD40).map (fun p => decide (DC.DefaultsClosed p)) = some false := by decide +kernel
+example : (gather structConsts).map (fun p => decide (PlainValues p)) = some false := by decide +kernel
 
 end ThriftVerif.Properties.C08
